@@ -1,21 +1,56 @@
 #!/usr/bin/env python3
-"""Writes seeded/README.md: which checks catch which seeded changes (from seeded/*/meta.json)."""
+"""Writes seeded/README.md: which checks catch which seeded changes (from seeded/*/meta.json) and which behaviour-preserving
+refactorings (seeded/harmless/*/meta.json) stay quiet."""
 import glob, json, os
-rows = []
-for d in sorted(glob.glob('/verif/seeded/*/')):
+ROOT = os.path.dirname(os.path.dirname(os.path.abspath(__file__)))
+rows, stats = [], {}
+for d in sorted(glob.glob(ROOT + '/seeded/C*/')):
+    m = json.load(open(d + 'meta.json'))
+    name = os.path.basename(d.rstrip('/'))
+    rnd = 'round 3' if '-r3-' in name else 'round 2' if '-r2-' in name else 'round 1'
+    checks = m.get('checks', {})
+    if m.get('applies') is False:
+        caught, missed = ['(no longer applies: the lines it edits were changed by a later fix: commit)'], []
+        stats.setdefault(rnd, [0, 0, 0])[2] += 1
+    else:
+        caught = [c + (' (no-failing-input-found)' if 'no-failing' in v.get('line', '') else '') for c, v in checks.items() if v.get('exit') == 1]
+        missed = [c for c, v in checks.items() if v.get('exit') == 0]
+        st = stats.setdefault(rnd, [0, 0, 0])
+        st[0 if caught else 1] += 1
+    rows.append((name, m.get('summary', '').replace('|', '/').replace('\n', ' ')[:230], m.get('needs', '').replace('|', '/').replace('\n', ' ')[:160],
+                 ', '.join(caught) or '-', ', '.join(missed) or '-'))
+hrows = []
+for d in sorted(glob.glob(ROOT + '/seeded/harmless/*/')):
     m = json.load(open(d + 'meta.json'))
     name = os.path.basename(d.rstrip('/'))
     checks = m.get('checks', {})
-    caught = [c + (' (no-failing-input-found)' if 'no-failing' in v.get('line', '') else '') for c, v in checks.items() if v.get('exit') == 1]
-    missed = [c for c, v in checks.items() if v.get('exit') == 0]
-    rows.append((name, m.get('summary', '').replace('|', '/').replace('\n', ' ')[:230], m.get('needs', '').replace('|', '/').replace('\n', ' ')[:160],
-                 ', '.join(caught) or '-', ', '.join(missed) or '-'))
-with open('/verif/seeded/README.md', 'w') as f:
+    quiet = [c for c, v in checks.items() if v.get('exit') == 0]
+    alarm = [c for c, v in checks.items() if v.get('exit') != 0]
+    hrows.append((name, m.get('summary', '').replace('|', '/').replace('\n', ' ')[:260], ', '.join(m.get('files', []))[:90],
+                  ', '.join(quiet) or '-', ', '.join(alarm) or '-'))
+with open(ROOT + '/seeded/README.md', 'w') as f:
     f.write('# Seeded changes\n\nEach directory holds `patch.diff` (a change to prometheus/client_python written by a fresh sub-agent that saw only the\n'
-            'property text), `demo.py` (fails with the change, passes without it) and `meta.json` (what it needs to manifest, what was\n'
-            'verified, and the outcome of the quick checks run against it: `git -C /repo apply patch.diff; ./check Cnn; git -C /repo checkout -- .`).\n'
-            'All were confirmed in a scratch worktree: the 320 tests pass with the change, the demo fails with it and passes without it.\n\n'
+            'property text and a scratch worktree), `demo.py` (fails with the change, passes without it) and `meta.json` (what it needs to\n'
+            'manifest, what was verified, and the outcome of the quick checks run against it in a scratch worktree of /repo HEAD:\n'
+            '`VERIF_REPO=<worktree with the patch> ./check Cnn`; nothing is ever applied to /repo itself; `tools/seed_recheck.py` re-runs all of them,\n'
+            '`tools/mutchk.sh <id> [checks]` one of them).  All were confirmed: the 320 tests pass with the change, the demo fails with it and passes\n'
+            'without it.  The table shows the state of the checks at the last re-run (`rechecked_at` in meta.json).\n\n')
+    f.write('Rounds: ' + '; '.join('%s: %d caught, %d missed, %d no longer applicable' % (k, v[0], v[1], v[2]) for k, v in sorted(stats.items())) + '.\n\n'
+            'How the rounds were used: the changes of a round that the checks of that time MISSED were handed (as examples of an input class,\n'
+            'never to be special-cased) to a strengthening pass that widened generators, observations, direct oracles and, where the model\'s\n'
+            'domain was too narrow, the model and its theorems; the next round was written by new sub-agents told to avoid everything the earlier\n'
+            'rounds had done.  Misses per round before strengthening: round 1: 9 of 54, round 2: 9 of 57, round 3: 13 of 57 (each later round aims at\n'
+            'rarer inputs and less obvious clauses).  The one change still listed as missed by its own property\'s check (C02-r2-2, a header\n'
+            'published before the entry bytes) is a crash-point/reader-interleaving defect of the mmap store and is caught by C11, whose property it violates.\n\n'
             '| Change | What it does | Needs | Caught by | Not caught by |\n|---|---|---|---|---|\n')
     for r in rows:
         f.write('| %s | %s | %s | %s | %s |\n' % r)
-print(len(rows), 'rows;', sum(1 for r in rows if r[3] == '-'), 'not caught by any check run against them')
+    f.write('\n# Behaviour-preserving refactorings (no alarm expected)\n\n`seeded/harmless/<id>/` holds `patch.diff` and `why.txt` (the argument that behaviour is '
+            'unchanged) of refactorings written by fresh sub-agents that saw only the property text (restructured control flow, extracted helpers, '
+            'equivalent library calls ...).  `tools/harmless_run.py` runs the quick check of the property and of every property anchored in a touched '
+            'file against a scratch worktree with the patch.  An alarm here would be a false alarm.\n\n'
+            '| Refactoring | What it does | Files | Quiet | Alarm |\n|---|---|---|---|---|\n')
+    for r in hrows:
+        f.write('| %s | %s | %s | %s | %s |\n' % r)
+print(len(rows), 'rows;', sum(1 for r in rows if r[3] == '-'), 'not caught by any check run against them;', len(hrows), 'harmless,',
+      sum(1 for r in hrows if r[4] != '-'), 'with an alarm')
